@@ -27,7 +27,7 @@ ASSUMPTIONS = [
     'collapse labels are strings (they become ids)',
 ]
 ANCHORS = ['Table.partition', 'Table.collapse', 'Table._conv_to_self_type']
-REQUIRED = ['collapse_f_forms', 'partition_calls', 'partition_dict_id2grp', 'partition_dict_grp2ids',
+REQUIRED = ['labeller_reads_the_table', 'collapse_f_forms', 'partition_calls', 'partition_dict_id2grp', 'partition_dict_grp2ids',
             'partition_ignore_none', 'partition_remove_empty',
             'partition_falsy_labels', 'collapse_one_to_one',
             'collapse_norm', 'collapse_min_group_size',
@@ -136,6 +136,35 @@ def drop_empty(spec):
     return sub_spec(s, 'observation', keep)
 
 
+def probing(ctx, r, spec, t, axis, f, desc):
+    """A quarter of the labelling functions look at the table they are
+    labelling while they are being called: a vector of the *other* axis, a
+    sum along it, a cell.  Reading is all they do; the answer is the same."""
+    if r.random() >= .25:
+        return f
+    other = 'observation' if axis == 'sample' else 'sample'
+    oids = spec.ids(other)
+    if not oids:
+        return f
+    kind = r.choice(['other-axis-vector', 'other-axis-sum', 'cell',
+                     'same-axis-vector'])
+    desc['labeller_reads_the_table'] = kind
+    ctx.count('labeller_reads_the_table')
+
+    def g(i, m):
+        if kind == 'other-axis-vector':
+            t.data(oids[len(str(i)) % len(oids)], axis=other, dense=True)
+        elif kind == 'other-axis-sum':
+            t.sum(axis=other)
+        elif kind == 'same-axis-vector':
+            t.data(i, axis=axis, dense=False)
+        else:
+            o = oids[0]
+            t.get_value_by_ids(*((i, o) if axis == 'observation' else (o, i)))
+        return f(i, m)
+    return g
+
+
 def run_partition(ctx, r, spec, t, axis, desc):
     ids = spec.ids(axis)
     md = spec.md(axis)
@@ -152,6 +181,7 @@ def run_partition(ctx, r, spec, t, axis, desc):
         def f(i, m):
             calls.append((str(i), None if m is None else dict(m)))
             return lab(str(i), m)
+        f = probing(ctx, r, spec, t, axis, f, desc)
         labels = [lab(i, None if md is None else md[k])
                   for k, i in enumerate(ids)]
     else:
@@ -275,7 +305,8 @@ def run_collapse(ctx, r, spec, t, axis, desc):
         kw['strict'] = r.random() < .5      # irrelevant for labellers that
         desc['strict'] = kw['strict']       # always answer
     try:
-        res = t.collapse(lambda i, m: lab(str(i), m), norm=norm,
+        res = t.collapse(probing(ctx, r, spec, t, axis,
+                                 lambda i, m: lab(str(i), m), desc), norm=norm,
                          min_group_size=mgs, include_collapsed_metadata=icm,
                          axis=axis, **kw)
     except ctx.TableException:
@@ -351,6 +382,7 @@ def run_one_to_many(ctx, r, spec, t, axis, desc):
         calls.append(str(i))
         for n, g in enumerate(assign[str(i)]):
             yield (['path', g, str(n)], g)
+    f = probing(ctx, r, spec, t, axis, f, desc)
     key = r.choice(['Path', 'KEGG_Pathways'])
     desc.update(op='collapse-one-to-many', mode=mode, assign=assign,
                 md_key=key)
